@@ -139,6 +139,10 @@ type ClusterTableConf struct {
 
 // BackendConfCheck check BackendConf config
 func BackendConfCheck(conf *BackendConf) error {
+	if conf == nil {
+		return errors.New("nil BackendConf")
+	}
+
 	if conf.Name == nil {
 		return errors.New("no Name")
 	}
